@@ -280,7 +280,7 @@ def check_enum(cx, fn, rep, facts, mutable):
                 ok = False
                 continue
             kids = S.kids(a, marker_of_pat(p['elems'][0]))
-            wild = [k for k in kids if k.cat == 'patelems' and len(k.ast) == 1 and k.ast[0]['k'] == 'Wild']
+            wild = [k for k in kids if k.ast is not None and k.cat == 'patelems' and len(k.ast) == 1 and k.ast[0]['k'] == 'Wild']
             bind = [k for k in kids if k not in wild]
             okw = len(wild) == 1
             if okw:
@@ -299,7 +299,7 @@ def check_enum(cx, fn, rep, facts, mutable):
             if not okw:
                 S.bad('SUM-DEREF', 'enum-tuple-wildcards', 'the number of leading `_` is not the index of the designated field', a)
                 ok = False
-            okb = len(bind) == 1 and bind[0].cat == 'patelems' and len(bind[0].ast) == 2 and bind[0].ast[1]['k'] == 'Rest' and marker_of_pat(bind[0].ast[0]) \
+            okb = len(bind) == 1 and bind[0].ast is not None and bind[0].cat == 'patelems' and len(bind[0].ast) == 2 and bind[0].ast[1]['k'] == 'Rest' and marker_of_pat(bind[0].ast[0]) \
                 and S.hole_term(bind[0], marker_of_pat(bind[0].ast[0])) == bt and not bind[0].ast[0]['by_ref'] and kids and kids[-1] is bind[0]
             if not okb:
                 S.bad('SUM-DEREF', 'enum-tuple-binder', 'after the wildcards the pattern is not `<binder>, ..` with the binder returned by the arm', a)
@@ -311,7 +311,7 @@ def check_enum(cx, fn, rep, facts, mutable):
                 ok = False
                 continue
             kids = S.kids(a, marker_of_pat(p['fields'][0]['pat']))
-            okb = len(kids) == 1 and kids[0].cat == 'fieldpats' and len(kids[0].ast['fields']) == 1 and kids[0].ast['rest'] and kids[0].ast['fields'][0]['shorthand'] \
+            okb = len(kids) == 1 and kids[0].ast is not None and kids[0].cat == 'fieldpats' and len(kids[0].ast['fields']) == 1 and kids[0].ast['rest'] and kids[0].ast['fields'][0]['shorthand'] \
                 and marker_of_pat(kids[0].ast['fields'][0]['pat']) and S.hole_term(kids[0], marker_of_pat(kids[0].ast['fields'][0]['pat'])) == bt
             if not okb:
                 S.bad('SUM-DEREF', 'enum-named-binder', 'the pattern is not `{ <designated field name>, .. }`', a)
@@ -422,6 +422,8 @@ def run(cx, tier='quick'):
             k += 1
     rep.counts['SEL'] = k
     check_dereference_helper(cx, rep)
+    from .c13 import include_own_scanners
+    include_own_scanners(cx, facts, rep, ['::deref::', '::deref_mut::'])
     rep.floor('SUM-DEREF', 4)
     rep.floor('MODELS-OWN', 10)
     rep.floor('SEL', 4)
